@@ -193,9 +193,9 @@ theorem truncate_effect (h : H) (s : Store) (inv : RwInv h s) (n : Nat) (hc : h.
     r.2.2.ret = 0 ∧ r.2.2.err = 0 ∧ r.1.frames = (n : Int) ∧ r.1.rpos = (n : Int) ∧ r.1.wpos = (n : Int) ∧
     absOf r.1 r.2.1 = (absOf h s).truncate (zeroFrame h.bw) n := by
   intro r
-  obtain ⟨o, i', a'⟩ := rdwr_step h s (.truncate n) inv hc
-  simp only [ROp.outOk] at o
-  simp only [ROp.toAOp, AbsFile.stepOpt, AbsFile.step] at a'
+  obtain ⟨o, i', a'⟩ := rdwr_step h s (.truncate n) inv trivial
+  simp only [ROp.outOk, hc, if_true] at o
+  simp only [ROp.toAOp, hc, if_true, AbsFile.stepOpt, AbsFile.step] at a'
   have hf' := i'.nframes
   have hr' := i'.abs_rpos
   have hw' := i'.abs_wpos
@@ -203,6 +203,27 @@ theorem truncate_effect (h : H) (s : Store) (inv : RwInv h s) (n : Nat) (hc : h.
   rw [AbsFile.truncate_length] at hf'
   exact ⟨o.1, o.2, hf'.symm, hr'.symm, hw'.symm, a'⟩
 
+/-- SFC_FILE_TRUNCATE on a route without `ftruncate` (SF_VIRTUAL_IO), since the TRUNC-VIO repair: refused — SF_TRUE (1),
+    no error, the handle unchanged up to the cleared error field, the store and hence the abstract file untouched -/
+theorem truncate_refused_effect (h : H) (s : Store) (n : Nat) (hm : h.mode = .rw) (hc : h.canTruncate = false) :
+    let r := stepAny h s ((ROp.truncate n).toOp h)
+    r.2.2.ret = 1 ∧ r.2.2.err = 0 ∧ r.1 = { h with error := 0 } ∧ r.2.1 = s ∧ absOf r.1 r.2.1 = absOf h s := by
+  intro r
+  have e : r = ({ h with error := 0 }, s, { ret := 1 }) :=
+    stepTruncate_vio h s n (by rw [hm]; decide) hc
+  rw [e]
+  exact ⟨rfl, rfl, rfl, rfl, rfl⟩
+
+/-- on routes where `ftruncate` works the TRUNC-VIO repair changed nothing -/
+theorem stepTruncate_eq_old (h : H) (s : Store) (f : Int) (hc : h.canTruncate = true) :
+    stepTruncate h s f = stepTruncateOld h s f := by
+  unfold stepTruncate stepTruncateOld
+  simp only []
+  have hs := (SameCfg.stepSeek { h with error := 0 } s f 0).canTruncate
+  generalize stepSeek { h with error := 0 } s f 0 = r at hs ⊢
+  obtain ⟨h1, s1, o1⟩ := r
+  have h1c : h1.canTruncate = true := hs.trans hc
+  simp [hc, h1c]
 /-! ## close, then a fresh read-only open -/
 
 theorem reopen_effect (h : H) (s : Store) (inv : RwInv h s) {fmt : Nat} {ch sr : Int} (cfg : CfgOf fmt ch sr h)
